@@ -87,6 +87,62 @@ pub fn run(ctx: &mut Ctx) {
             case(ctx, &parser, &format!("else-interrupt:{}", crate::proto::hex(&want)), t, &d);
         }
     }
+    // `break` / `continue` reached inside an INCLUDED partial (include shares the caller's state) act on
+    // the for loop of the including template, at every iteration index and at both nesting levels
+    {
+        let guard: Vec<Node> = vec![
+            Node::Cond { c: Cond::Bin(var("i"), CmpOp::Eq, var("skip")), mode: true, thn: vec![Node::Continue], els: None, elsif: false },
+            Node::Cond { c: Cond::Bin(var("i"), CmpOp::Eq, var("stop")), mode: true, thn: vec![Node::Break], els: None, elsif: false },
+        ];
+        let ps: Vec<PartialDef> = vec![("guard".into(), Ok(guard))];
+        let pparser = build_parser(&ps, Policy::Eager);
+        for skip in 0..=5i64 {
+            for stop in 0..=5i64 {
+                let mut d = Object::new();
+                d.insert("skip".into(), Value::scalar(skip));
+                d.insert("stop".into(), Value::scalar(stop));
+                // single loop
+                let t = vec![Node::For { x: "i".into(), rng: RangeE::Counted(lit_i(1), lit_i(4)), limit: None, offset: None, rev: false,
+                    body: vec![text("["), out(var("i")), Node::Include(lit_s("guard"), vec![]), text(":"), out(path("forloop", &["index"])), text("]")], els: None }, text("|after")];
+                let mut want = String::new();
+                for i in 1..=4i64 {
+                    want.push_str(&format!("[{}", i));
+                    if i == skip {
+                        continue;
+                    }
+                    if i == stop {
+                        break;
+                    }
+                    want.push_str(&format!(":{}]", i));
+                }
+                want.push_str("|after");
+                let obs = render_text(&pparser, &src_tmpl(&t), &d);
+                ctx.emit(render_case("c05", &format!("expect:{}", crate::proto::hex(&want)), &t, &d, &ps, &obs));
+                // inner of two loops: only the inner loop is affected
+                let inner = Node::For { x: "i".into(), rng: RangeE::Counted(lit_i(1), lit_i(3)), limit: None, offset: None, rev: false,
+                    body: vec![out(var("i")), Node::Include(lit_s("guard"), vec![]), text(".")], els: None };
+                let t = vec![Node::For { x: "o".into(), rng: RangeE::Counted(lit_i(1), lit_i(2)), limit: None, offset: None, rev: false,
+                    body: vec![text("<"), out(var("o")), text(":"), inner, text(">")], els: None }];
+                let mut want = String::new();
+                for o in 1..=2 {
+                    want.push_str(&format!("<{}:", o));
+                    for i in 1..=3i64 {
+                        want.push_str(&i.to_string());
+                        if i == skip {
+                            continue;
+                        }
+                        if i == stop {
+                            break;
+                        }
+                        want.push('.');
+                    }
+                    want.push('>');
+                }
+                let obs = render_text(&pparser, &src_tmpl(&t), &d);
+                ctx.emit(render_case("c05", &format!("expect:{}", crate::proto::hex(&want)), &t, &d, &ps, &obs));
+            }
+        }
+    }
     // short ranges at the very ends of the 64-bit range (judged by the same reference as the grid)
     for (lo, hi) in [(i64::MAX - 2, i64::MAX), (i64::MAX, i64::MAX), (i64::MAX - 1, i64::MAX), (i64::MIN, i64::MIN + 2), (i64::MIN, i64::MIN), (i64::MAX, i64::MAX - 1)] {
         for (off, lim, rev) in [(None, None, false), (Some(1i64), Some(2i64), true), (Some(0), Some(1), false), (None, Some(5), true)] {
